@@ -33,7 +33,10 @@ def abs_value(v):
     raise TypeError('value outside the modelled space: %r' % (v,))
 
 
-STRS = ['a', 'name', "it's", 'q"uote', 'back\\slash', 'ünï', '', 'x__gte', '50%']
+STRS = ['a', 'name', "it's", 'q"uote', 'back\\slash', 'ünï', '', 'x__gte', '50%',
+        # text that is not in Unicode's composed normal form (a decomposed accent as macOS produces it, a code point
+        # that NFC replaces): stored text is the text given, code point for code point
+        'Ame\u0301lie', '\u212bngstro\u0308m']
 
 
 def gen_q(rng, depth=0):
